@@ -8,13 +8,30 @@ open HashModel
    double holds exactly, i.e. k, m < 2^53) ---- *)
 let f32 (x : float) : float = Int32.float_of_bits (Int32.bits_of_float x)
 let phi = f32 1.61803398875
-let mul_int (k : int) (m : int) : int =
-  let kf = f32 (float_of_int k) in
+(* size_t -> float conversion with a single rounding (round to nearest even), for any 64-bit value *)
+let f32_of_n (n : BinNums.coq_N) : float =
+  match n with
+  | BinNums.N0 -> 0.0
+  | BinNums.Npos p ->
+    let bits = Array.of_list (Util.bits_of_pos p) in          (* lsb first *)
+    let len = Array.length bits in
+    if len <= 24 then float_of_string (Util.string_of_n n)
+    else begin
+      let mant = ref 0 in
+      for i = len - 1 downto len - 24 do mant := (!mant * 2) + (if bits.(i) then 1 else 0) done;
+      let guard = bits.(len - 25) in
+      let sticky = ref false in
+      for i = 0 to len - 26 do if bits.(i) then sticky := true done;
+      if guard && (!sticky || !mant land 1 = 1) then incr mant;
+      ldexp (float_of_int !mant) (len - 24)
+    end
+let mulf (k : BinNums.coq_N) (m : BinNums.coq_N) : BinNums.coq_N =
+  let kf = f32_of_n k in
   let mm = f32 (phi *. kf) in
   let fr = f32 (mm -. Stdlib.floor mm) in
-  int_of_float (f32 (fr *. f32 (float_of_int m)))
-let mulf (k : BinNums.coq_N) (m : BinNums.coq_N) : BinNums.coq_N =
-  n_of_int (mul_int (int_of_n k) (int_of_n m))
+  let r = f32 (fr *. f32_of_n m) in
+  (* float -> size_t: truncation toward zero of a non-negative value below 2^64 *)
+  n_of_string (Printf.sprintf "%.0f" (Stdlib.floor r))
 
 let hf = script_hf mulf
 
